@@ -58,6 +58,8 @@ impl HolePunch {
             });
         }
 
+        #[cfg(feature = "verif")]
+        crate::verif::tap(crate::verif::Event::Punch { off: start, len: length });
         Ok(())
     }
 
